@@ -43,7 +43,7 @@ def tcp_delivery(draw, modes=("rec", "rec", "flight", "flight", "cuts", "cuts", 
     mode = draw(st.sampled_from(list(modes)))
     t = {"mode": mode, "mss": draw(st.sampled_from([1400, 1400, 536, 100, 9000, 16500])), "syn": draw(st.booleans()),
          "acks": draw(st.booleans())}
-    isn = st.one_of(st.integers(0, 2 ** 32 - 1), st.sampled_from([0, 1, 2 ** 31 - 1, 2 ** 31])) if wrap else st.integers(0, 2 ** 31)
+    isn = st.one_of(st.integers(0, 2 ** 32 - 1), st.sampled_from([0, 1, 2 ** 31 - 1, 2 ** 31]), st.integers(1, 20000).map(lambda k: 2 ** 32 - k)) if wrap else st.integers(0, 2 ** 31)
     t["isn_c"], t["isn_s"] = draw(isn), draw(isn)
     if mode == "cuts":
         t["cuts"] = [draw(st.lists(st.integers(0, 40000), max_size=12)), draw(st.lists(st.integers(0, 40000), max_size=12))]
